@@ -1,16 +1,15 @@
 #!/usr/bin/env python3
 """Runs every check against every confirmed seeded change (applied to /repo, then reverted) and files the
-seeds under /verif/seeded/<id>/ with meta.json. Usage: seed_matrix.py [/tmp/seeds]"""
+seeds under /verif/seeded/<id>/ with meta.json. Usage: seed_matrix.py [dir ...]  (default /tmp/seeds /tmp/seeds2; /verif/seeded itself may be given to re-run the stored seeds)"""
 import os, sys, json, subprocess, shutil, re
-SRC = sys.argv[1] if len(sys.argv) > 1 else '/tmp/seeds'
+SRCS = sys.argv[1:] or ['/tmp/seeds', '/tmp/seeds2']
 VERIF = '/verif'
 props = [json.loads(l)['id'] for l in open(VERIF + '/properties.jsonl')]
 claimed = [c['property_id'] for c in json.load(open(VERIF + '/MANIFEST.json'))['checks']]
 head = subprocess.check_output(['git', '-C', '/repo', 'rev-parse', '--short', 'HEAD'], text=True).strip()
 rows = []
 SKIP = {'C06A': 'superseded by C06A2 (the line it edits was repaired in /repo)', 'C11A': 'superseded by C11A2', 'C13A': 'superseded by C13A2', 'C14B': 'superseded by C14B2'}
-for name in sorted(os.listdir(SRC)):
-    d = os.path.join(SRC, name)
+for name, d in sorted((n, os.path.join(S, n)) for S in SRCS if os.path.isdir(S) for n in os.listdir(S)):
     if not os.path.isdir(d) or not os.path.exists(os.path.join(d, 'confirm.json')):
         continue
     if name in SKIP:
@@ -35,8 +34,8 @@ for name in sorted(os.listdir(SRC)):
     out = os.path.join(VERIF, 'seeded', name)
     os.makedirs(out, exist_ok=True)
     open(os.path.join(out, 'patch.diff'), 'w').write(diff)
-    for f in ('demo.cpp', 'README.txt'):
-        if os.path.exists(os.path.join(d, f)):
+    for f in ('demo.cpp', 'README.txt', 'confirm.json'):
+        if os.path.exists(os.path.join(d, f)) and os.path.abspath(d) != os.path.abspath(out):
             shutil.copy(os.path.join(d, f), os.path.join(out, f))
     readme = open(os.path.join(d, 'README.txt')).read() if os.path.exists(os.path.join(d, 'README.txt')) else ''
     meta = {
